@@ -257,6 +257,11 @@ def install_stubs(targets, own):
                         pass
                 raise e
             return r[1]
+        try:
+            stub.__signature__ = inspect.signature(
+                orig.__func__ if isinstance(orig, (staticmethod, classmethod)) else orig)
+        except (TypeError, ValueError):
+            pass
         setattr(owner, parts[-1], staticmethod(stub) if isinstance(orig, staticmethod) else stub)
         undo.append(lambda owner=owner, nm=parts[-1], orig=orig: setattr(owner, nm, orig))
     return undo
